@@ -225,6 +225,9 @@ EXTRA12 = {
  "C13": " The stack_index of a mapping row is the position of the thread's stack in self.call_stacks, the list shared by all ranks.",
  "C14": " The sweep sort is the last sort in front of the per-stream regrouping; a stable sort that falls back to the row index at equal timestamps is a tie-order violation. Thorough tier: the reference queue / bandwidth sweeps are validated under pandas against brute-force step functions (ties, zero-length copies).",
  "C15": " Correlation ids kept in a set created in front of the rank loop and only ever updated are ids of an earlier rank.",
+ "C17": " No memoised result is modified in place by its consumer (two-site rule: a method handing out the object it keeps on self plus a caller that stores into the result).",
+ "C12": " The per-rank trim has no data-dependent way out (no path hands the rank's frame back untouched).",
+ "C18": " CompositeFilter: on every explored path each later member is applied to the running frame, never to the caller's frame.",
  "C19": " restore_cpgraph extracts EVERY member of the archive also when the files of an earlier extraction (same names, same sizes) are still on disk (second disk state of the abstract run).",
 }
 for _k, _v in EXTRA12.items():
